@@ -125,6 +125,22 @@ def build_tree(dp, ns, taxa, parents):
     return tree
 
 
+def copy_nodes(tree, via_extract=False):
+    """a node structure "built elsewhere": fresh Node objects mirroring the tree, carrying the SAME Taxon objects
+    (or the library's own extract_subtree of the seed node, which does the same)"""
+    import dendropy
+    if via_extract:
+        return tree.seed_node.extract_subtree(suppress_unifurcations=False)
+
+    def go(nd):
+        c = dendropy.Node()
+        c.taxon = nd.taxon
+        for ch in nd._child_nodes:
+            c.add_child(go(ch))
+        return c
+    return go(tree.seed_node)
+
+
 def newick_of(label_lists):
     def q(s):
         return "'" + s.replace("'", "''") + "'"
@@ -297,6 +313,14 @@ def apply_op(w, op):
             w.reg_list(tl)
             for t in tl:
                 w.reg_tree(t)
+    elif k == "newtreeseed":
+        t = w.lists[op[1]].new_tree(seed_node=copy_nodes(w.trees[op[2]], bool(op[3])))
+        w.reg_tree(t)
+    elif k == "treeseed":
+        nd = copy_nodes(w.trees[op[2]], bool(op[3]))
+        t = dp.Tree(seed_node=nd) if op[1] is None else dp.Tree(seed_node=nd, taxon_namespace=w.nss[op[1]])
+        w.reg_ns(t.taxon_namespace)
+        w.reg_tree(t)
     elif k == "taadd":
         ta = dp.TreeArray(taxon_namespace=w.nss[op[1]])
         tree = w.trees[op[2]]
@@ -457,6 +481,10 @@ def enc_op(op):
         return [k, str(op[1]), str(op[2]), str(op[3])]
     if k == "taadd":
         return ["taadd", str(op[1]), str(op[2])]
+    if k == "newtreeseed":
+        return ["newtreeseed", str(op[1]), str(op[2])]
+    if k == "treeseed":
+        return ["treeseed", oint(op[1]), str(op[2])]
     if k == "dsadd":
         return ["dsadd", str(op[1]), op[2], str(op[3])]
     if k in ("dsnewlist", "dsnewmat", "dsnewns", "dsdetach"):
@@ -593,6 +621,11 @@ class Watch(object):
                 self.mode = "unify"
                 m = w.mats[op[1]]
                 self.before = [("mclone", m, mat_items(m))]
+            elif k in ("newtreeseed", "treeseed"):
+                src = w.trees[op[2]]
+                self.target = L[op[1]].taxon_namespace if k == "newtreeseed" else (None if op[1] is None else w.nss[op[1]])
+                self.mode = "same"
+                self.before = [("clone1", src, tree_taxa(src))]
             elif k == "dsunify":
                 ds = w.dss[op[1]]
                 self.target = None if op[2] is None else w.nss[op[2]]
@@ -734,6 +767,8 @@ class Watch(object):
                             pairs.append((a.label, b, a, src.taxon_namespace is self.target))
             if target is None and op[0] == "dsunify":
                 target = w.dss[op[1]].attached_taxon_namespace
+            if target is None and op[0] == "treeseed":
+                target = w.trees[-1].taxon_namespace
         if target is None:
             return out
         kf = keyf(target.is_case_sensitive)
@@ -988,7 +1023,7 @@ def random_op(rng, w, allow_known=False):
     nN, nT, nL, nM, nD = len(w.nss), len(w.trees), len(w.lists), len(w.mats), len(w.dss)
     kinds = ["append", "append", "insert", "setitem", "setslice", "extend", "iadd", "add", "read", "newtree", "getslice", "pop",
              "remove", "lclone", "tclone", "mclone", "tmig", "trec", "lmig", "lrec", "mmig", "mrec", "mset", "mnew", "dsadd",
-             "dsnewlist", "dsnewmat", "dsnewns", "dsattach", "dsdetach", "dsunify", "dsread", "tree", "tlist", "ns", "mat", "taadd"]
+             "dsnewlist", "dsnewmat", "dsnewns", "dsattach", "dsdetach", "dsunify", "dsread", "tree", "tlist", "ns", "mat", "taadd", "newtreeseed", "newtreeseed", "treeseed"]
     k = rng.choice(kinds)
     pool = LABEL_POOL
 
@@ -1009,6 +1044,10 @@ def random_op(rng, w, allow_known=False):
     if k == "mat" and nN:
         n = rng.randrange(nN)
         return ["mat", n, [i for i in range(len(w.nss[n])) if rng.random() < 0.6]]
+    if k == "newtreeseed" and nL and nT:
+        return ["newtreeseed", rng.randrange(nL), rng.randrange(nT), 1 if rng.random() < 0.3 else 0]
+    if k == "treeseed" and nT:
+        return ["treeseed", rng.randrange(nN) if nN and rng.random() < 0.75 else None, rng.randrange(nT), 1 if rng.random() < 0.3 else 0]
     if k == "taadd" and nT and nN:
         t = rng.randrange(nT)
         # only foreign namespaces (the refusal): accepting a tree re-encodes it (unifurcations are suppressed), which is C06's matter
@@ -1221,12 +1260,13 @@ def small_ops():
         ops.append(["add", L, "L", 1 - L])
         ops.append(["read", L, [["a", "B"], ["A"]]])
         ops.append(["newtree", L, 1 - L])
+        ops.append(["newtreeseed", L, 1 - L, 0])
         ops.append(["pop", L, 0])
         ops.append(["lmig", L, 2, 1])
         ops.append(["lmig", L, 1 - L, 0])
         ops.append(["lclone", L, 2])
         ops.append(["dsadd", 0, "l", L])
-    ops += [["tmig", 0, 1, 1], ["tmig", 1, 0, 1], ["tmig", 1, 2, 0], ["trec", 1, 1], ["tclone", 1, 0], ["mmig", 0, 0, 1], ["mmig", 0, 2, 1],
+    ops += [["treeseed", 0, 1, 1], ["tmig", 0, 1, 1], ["tmig", 1, 0, 1], ["tmig", 1, 2, 0], ["trec", 1, 1], ["tclone", 1, 0], ["mmig", 0, 0, 1], ["mmig", 0, 2, 1],
             ["mrec", 0, 1], ["mclone", 0, 0], ["mset", 0, 1, 0], ["mnew", 0, 1, 0], ["dsadd", 0, "m", 0], ["dsnewlist", 0], ["dsattach", 0, 0],
             ["dsattach", 0, 2], ["dsdetach", 0], ["dsunify", 0, None], ["dsunify", 0, 2], ["dsread", 0, ["A", "a", "D"], ["A", "D"], [["a", "D"]]]]
     return ops
